@@ -735,6 +735,73 @@ def transfer_stream(ctx, res, n):
                 break
 
 
+def odd_default_stream(ctx, res):
+    """declared defaults that are mutable below a first level that is not a list / dict literal: a tuple holding lists, a dict default
+    given as a list of pairs, a list default holding ready-made configuration objects. Enumerated: two configurations, every level of
+    one of them mutated in place, the other one, the declared default and a configuration built afterwards must not change."""
+    import cincoconfig as cc
+    from cincoconfig.core import AnyField
+    item = cc.Schema()
+    item.x = cc.IntField(default=1)
+    item.tags = cc.ListField(default=lambda: ["t"])
+    T = cc.make_type(item, "OddItem")
+
+    def nested_lists(v):
+        out = []
+        if isinstance(v, (list, tuple)):
+            for x in v:
+                if isinstance(x, list):
+                    out.append(x)
+                out += nested_lists(x)
+        elif isinstance(v, dict):
+            for x in v.values():
+                if isinstance(x, list):
+                    out.append(x)
+                out += nested_lists(x)
+        return out
+    makers = [("any-tuple-of-lists", lambda: AnyField(default=("x", [1, 2]))),
+              ("untyped-list-given-as-tuple", lambda: cc.ListField(default=([1, 2], [3]))),
+              ("typed-list-given-as-tuple", lambda: cc.ListField(cc.ListField(cc.IntField()), default=([1, 2], [3]))),
+              ("dict-given-as-pairs", lambda: cc.DictField(default=[("cpu", [1, 2])])),
+              ("typed-dict-given-as-pairs", lambda: cc.DictField(cc.StringField(), cc.ListField(cc.IntField()), default=[("cpu", [1, 2])])),
+              ("list-of-config-type-objects", lambda: cc.ListField(T, default=[T(x=3)])),
+              ("list-of-configuration-objects", lambda: cc.ListField(item, default=[item(x=4)]))]
+    for name, mk in makers:
+        s = cc.Schema()
+        try:
+            s.sub.f = mk()
+        except Exception:  # noqa
+            res.case(None, kind="odd-default:declaration-refused")
+            continue
+        fld = s._fields["sub"]._fields["f"]
+        case = {"stream": "odd-default", "what": name}
+        res.case(stable(case), kind="odd-default:" + name)
+        before_default = tree_of(fld.default)
+        try:
+            a, b = s(), s()
+        except BaseException as e:  # noqa  (RecursionError included)
+            res.violate("C13:fresh-build-differs:odd-default", "a second configuration of the schema cannot even be built (%s): the declared default is not handed "
+                        "over as a copy of its own" % type(e).__name__, case)
+            continue
+        first = tree_of(a.sub.f)
+        va = a.sub.f
+        if isinstance(va, (list, tuple)) and va and hasattr(va[0], "_data"):
+            if va[0] is b.sub.f[0]:
+                res.violate("C13:other-config-changed:odd-default", "two configurations hold the very same item configuration object taken from the default", case)
+            va[0].x = 99
+            va[0].tags.append("edited")
+        else:
+            for lst in nested_lists(va):
+                lst.append("edited")
+        c = s()
+        if tree_of(b.sub.f) != first:
+            res.violate("C13:other-config-changed:odd-default", "an in-place mutation through one configuration changed what another one observes", dict(case, other=tree_of(b.sub.f)))
+        if tree_of(fld.default) != before_default:
+            res.violate("C13:default-changed:odd-default", "an in-place mutation through a configuration changed the declared default", case)
+        if tree_of(c.sub.f) != first:
+            res.violate("C13:fresh-build-differs:odd-default", "a configuration built afterwards does not observe the declared default", dict(case, fresh=tree_of(c.sub.f)))
+
+
 def run(ctx, n_quick=250, n_thorough=8000):
     import extract
     res = Result()
@@ -752,6 +819,7 @@ def run(ctx, n_quick=250, n_thorough=8000):
     for i in range(ctx.n(n_quick, n_thorough)):
         one_case(ctx, res, i, table, reqs, pend)
     guard(res, "C13", transfer_stream, ctx, res, ctx.n(300, 6000))
+    guard(res, "C13", odd_default_stream, ctx, res)
     replies = ctx.model(reqs)
     if replies is not None:
         for (case, trace), r in zip(pend, replies):
